@@ -59,6 +59,11 @@ type Real struct {
 	Cuts    []int  `json:"cuts,omitempty"`    // merged: file i holds content[Cuts[i-1]:Cuts[i]]
 	Syntax  string `json:"syntax,omitempty"`  // merged: one letter per file, n(ative) or j(son)
 	Dynamic []bool `json:"dynamic,omitempty"` // expanded: per maximal run of same-type blocks: written as one dynamic block
+	// json-*: one "zero blocks" insertion into the encoded document (absconf/degenerate.go)
+	Deg *absconf.Degenerate `json:"deg,omitempty"`
+	// json-*: the document is not a file's top-level body but the body of a block `w` of a wrapper file:
+	// block = {"w": DOC}, block-array = {"w": [{}, DOC]} (the second block), labelled = {"w": {"k": DOC}}
+	Wrap string `json:"wrap,omitempty"`
 }
 
 func (r Real) String() string {
@@ -68,7 +73,14 @@ func (r Real) String() string {
 	case "expanded":
 		return fmt.Sprintf("expanded(%v)", r.Dynamic)
 	}
-	return r.Kind
+	s := r.Kind
+	if r.Deg != nil {
+		s += "+" + r.Deg.String()
+	}
+	if r.Wrap != "" {
+		s += " in " + r.Wrap
+	}
+	return s
 }
 
 // Pin restricts a case to one schema and one split (replays of shrunk cases).
@@ -275,9 +287,19 @@ func realise(content absconf.Body, r Real) (hcl.Body, refbody.Model, []string, e
 		if r.Kind == "json-arrays" {
 			enc = absconf.ArrayHeavy(content)
 		}
-		src := enc.Doc.Render()
+		doc := enc.Doc
+		if r.Deg != nil {
+			var err error
+			if doc, err = r.Deg.Apply(doc); err != nil {
+				return nil, nil, nil, err
+			}
+		}
+		if r.Wrap != "" {
+			return realiseWrapped(doc, r.Wrap)
+		}
+		src := doc.Render()
 		b, err := parseJSON(src)
-		return b, refbody.NewJSON(enc.Doc), []string{src}, err
+		return b, refbody.NewJSON(doc), []string{src}, err
 	case "expanded":
 		src, groups := expandedText(content, r.Dynamic)
 		b, err := parseNative(src)
@@ -315,6 +337,41 @@ func realise(content absconf.Body, r Real) (hcl.Body, refbody.Model, []string, e
 		return hcl.MergeBodies(bodies), m, texts, nil
 	}
 	return nil, nil, nil, fmt.Errorf("unknown realisation %q", r.Kind)
+}
+
+// realiseWrapped makes doc (a single JSON object) the body of a block `w` of a wrapper file and
+// returns that block's body: the same logical content one nesting level down.
+func realiseWrapped(doc *absconf.JNode, wrap string) (hcl.Body, refbody.Model, []string, error) {
+	if doc.Kind != absconf.JObj {
+		return nil, nil, nil, fmt.Errorf("wrap %q: a nested block body is always one JSON object", wrap)
+	}
+	var val *absconf.JNode
+	idx, labels := 0, 0
+	switch wrap {
+	case "block":
+		val = doc
+	case "block-array":
+		val, idx = &absconf.JNode{Kind: absconf.JArr, Elems: []*absconf.JNode{{Kind: absconf.JObj}, doc}}, 1
+	case "labelled":
+		val, labels = &absconf.JNode{Kind: absconf.JObj, Props: []absconf.JProp{{Name: "k", Val: doc}}}, 1
+	default:
+		return nil, nil, nil, fmt.Errorf("unknown wrap %q", wrap)
+	}
+	outer := &absconf.JNode{Kind: absconf.JObj, Props: []absconf.JProp{{Name: "w", Val: val}}}
+	src := outer.Render()
+	ob, err := parseJSON(src)
+	if err != nil {
+		return nil, nil, nil, err
+	}
+	oc, diags := ob.Content(&hcl.BodySchema{Blocks: []hcl.BlockHeaderSchema{{Type: "w", LabelNames: labelNames[:labels]}}})
+	if diags.HasErrors() || len(oc.Blocks) != idx+1 {
+		return nil, nil, nil, fmt.Errorf("wrapper file %s: %d blocks, diagnostics: %v", src, len(oc.Blocks), diags)
+	}
+	om := refbody.NewJSON(outer).Content(refbody.Schema{Blocks: []refbody.BlockS{{Type: "w", Labels: labels}}})
+	if om.Errs != 0 || om.Unspec || len(om.Blocks) != idx+1 {
+		return nil, nil, nil, fmt.Errorf("wrapper file %s: reference model does not give %d blocks", src, idx+1)
+	}
+	return oc.Blocks[idx].Body, om.Blocks[idx].Body, []string{src}, nil
 }
 
 // ---------------------------------------------------------------- observation
@@ -528,8 +585,10 @@ type runner struct {
 	content absconf.Body
 	// twin: for a merge of exactly one file, that file's body on its own; every
 	// step is run on it too and must give the same observation (L5, directly).
-	twin  hcl.Body
-	fails map[string]*failure
+	twin hcl.Body
+	// realTag names the JSON "zero blocks" construct of the realisation, if any (suffix of every class)
+	realTag string
+	fails   map[string]*failure
 	sig   sigAcc
 	// current schema
 	es  []Elem
@@ -549,6 +608,9 @@ func (r *runner) fail(op, clause, detail string, tags ...string) {
 			cl = "c04." + r.kind + ".on-remainder." + clause
 		}
 		cl += "." + t
+	}
+	if r.realTag != "" {
+		cl += "." + r.realTag
 	}
 	if _, ok := r.fails[cl]; ok {
 		return
@@ -1023,6 +1085,9 @@ func runCase(d Data, kind string, content absconf.Body, real Real) (*runner, []s
 		return nil, nil, 0, err
 	}
 	r := &runner{kind: kind, body: body, model: model, content: content, fails: map[string]*failure{}}
+	if real.Deg != nil {
+		r.realTag = real.Deg.Tag()
+	}
 	if real.Kind == "merged" && len(real.Cuts) == 1 {
 		tr := Real{Kind: "native"}
 		if real.Syntax == "j" {
@@ -1293,6 +1358,56 @@ func realisations(content absconf.Body, thorough bool) []Real {
 					out = append(out, Real{Kind: "merged", Cuts: cuts, Syntax: string(syn)})
 				}
 			}
+		}
+	}
+	// JSON "zero blocks" encodings (appended so that the identifiers of the cases above stay stable)
+	if !dupAttr(content) && !mixedArity(content) {
+		out = append(out, degenerateRealisations(content, thorough)...)
+	}
+	return out
+}
+
+// degenerateRealisations: the two fixed JSON encodings with one "zero blocks" insertion each
+// (absconf/degenerate.go), and the compact encoding as the body of a wrapper block.
+//
+// quick: contents of <= 2 items; every form for the types x and y at the end of the top-level body and
+// the forms null / [] at every other position of it (array-form top-level body: as new elements, plus the
+// empty object as a new element); at every label level of every block property every level form under the
+// label k at the end and null / [] at every other position, and the empty object at every position of an
+// array-form label level. Contents of <= 1 item also as the body of a wrapper block (block, block-array,
+// labelled), plain and with the body-level insertions.
+// thorough: contents of <= 3 items, every form at every position (also inside the element objects of an
+// array-form top-level body), types x, y, z, labels k and z; wrapper blocks for contents of <= 2 items.
+func degenerateRealisations(content absconf.Body, thorough bool) []Real {
+	maxLen, maxWrap := 2, 1
+	opt := absconf.DegOptions{Types: []string{"x", "y"}, Labels: []string{"k"}, Arity: absconf.BlockArity(content)}
+	if thorough {
+		maxLen, maxWrap = 3, 2
+		opt.Types, opt.Labels, opt.Full = []string{"x", "y", "z"}, []string{"k", "z"}, true
+	}
+	var out []Real
+	if len(content) > maxLen {
+		return nil
+	}
+	for _, kind := range []string{"json-compact", "json-arrays"} {
+		enc := absconf.Compact(content)
+		if kind == "json-arrays" {
+			enc = absconf.ArrayHeavy(content)
+		}
+		absconf.Degenerates(enc.Doc, opt, func(d absconf.Degenerate) bool {
+			out = append(out, Real{Kind: kind, Deg: &d})
+			return true
+		})
+	}
+	if len(content) <= maxWrap {
+		for _, wrap := range []string{"block", "block-array", "labelled"} {
+			out = append(out, Real{Kind: "json-compact", Wrap: wrap})
+			absconf.Degenerates(absconf.Compact(content).Doc, opt, func(d absconf.Degenerate) bool {
+				if d.Site == "body-object" && len(d.Path) == 0 {
+					out = append(out, Real{Kind: "json-compact", Deg: &d, Wrap: wrap})
+				}
+				return true
+			})
 		}
 	}
 	return out
